@@ -34,7 +34,10 @@ type c16Inl2 struct {
 	IRest  map[string]any `yaml:",inline"`
 }
 
+type c16Key string
+
 var c16Types = map[string]reflect.Type{
+	"map_nss": reflect.TypeOf(map[c16Key]string(nil)),
 	"struct:inl2": reflect.TypeOf(c16Inl2{}),
 	"string": reflect.TypeOf(""), "int": reflect.TypeOf(0), "bool": reflect.TypeOf(false), "float": reflect.TypeOf(0.0),
 	"any": reflect.TypeOf((*any)(nil)).Elem(), "slice_string": reflect.TypeOf([]string(nil)), "slice_any": reflect.TypeOf([]any(nil)),
